@@ -707,6 +707,7 @@ class World:
         if inst.family not in catalog.INPUT_RANK:
             return self._skip(rec, "not-forward")
         spec = op["arg"]
+        rec["call_default"] = self.intended_default
         base, x = make_tensor(spec)
         leaf = x
         want_rg = bool(op.get("requires_grad")) and (x.is_floating_point() or x.is_complex())
